@@ -8,6 +8,7 @@ import time
 import z3
 from pyvc.sorts import *  # noqa
 from pyvc.state import *  # noqa
+from pyvc.state import cls_fn
 from pyvc import contract as C
 from pyvc.expr import ExprMixin
 from pyvc.calls import CallMixin
@@ -205,7 +206,43 @@ class Exec(ExprMixin, CallMixin):
   def st_Expr(self, s, st):
     if isinstance(s.value, ast.Constant):
       return [Outcome('normal', st)]      # docstring
+    if isinstance(s.value, ast.Yield):
+      return self.yield_body(s, st)
     return self._from_res(self.ev(s.value, st), lambda st2, v: [Outcome('normal', st2)])
+
+  def yield_body(self, s, st):
+    """`yield` of a @contextmanager generator: the with-body is an abstract block that may
+    change any heap location, and either finishes normally or raises any exception."""
+    if 'body' in st.meta:
+      self.unsupp('second yield in a context manager', s)
+    h = st.heap
+    if self.ctr.cm and self.ctr.enter_ensures is not None and self.inline_depth == 0:
+      ctx_e = C.Ctx(self.entry_args, self.entry_heap, h, env=st.env)
+      self.oblige('cm/enter-post', 'post', st, self.ctr.enter_ensures(ctx_e),
+                  'state established before the body runs', s.lineno)
+    newh = h
+    for n in list(h.names()):
+      if n == 'alloc':
+        continue
+      newh = newh.set(n, fresh('body_' + n.replace(':', '_'), heap_sort(n)))
+    na = fresh('body_alloc', I)
+    newh = newh.set('alloc', na)
+    base = st.with_heap(newh).assume(na >= h.alloc)
+    base.meta['enter_heap'] = h
+    outs = []
+    s1 = base.copy()
+    s1.meta['body'] = 'normal'
+    s1.meta['body_heap'] = newh
+    outs.append(Outcome('normal', s1))
+    ecls = fresh('body_exc_cls', I)
+    ev = fresh('body_exc', I)
+    s2 = base.assume(cls_in(ecls, 'BaseException'), ev < na, cls_fn(ev) == ecls)
+    exc = Exc(ecls, val=VRef(ev), name='<body exception>', origin='with-body')
+    s2.meta['body'] = 'raised'
+    s2.meta['body_heap'] = newh
+    s2.meta['body_exc'] = exc
+    outs.append(Outcome('raise', s2, exc))
+    return outs
 
   def st_Return(self, s, st):
     if s.value is None:
@@ -681,6 +718,14 @@ class Exec(ExprMixin, CallMixin):
       if o.kind == 'normal':
         o = Outcome('return', o.st, VNone)
       self.paths += 1
+      if ctr.cm and 'body' in o.st.meta:
+        self.exits['return' if o.kind == 'return' else 'raise'] += 1
+        self.check_cm_exit(o)
+        continue
+      if ctr.cm and o.kind == 'return':
+        self.oblige('cm/yields', 'post', o.st, z3.BoolVal(False),
+                    'a context-manager generator must yield before returning')
+        continue
       if o.kind == 'return':
         self.exits['return'] += 1
         self.check_normal_exit(o)
@@ -722,6 +767,8 @@ class Exec(ExprMixin, CallMixin):
   def frame_goals(self, ctx, st):
     """Frame: rows of objects outside `mod` and fields outside `writes` are unchanged."""
     goals = []
+    if self.ctr.havoc_all:
+      return goals      # the function runs arbitrary user code: no frame is claimed
     mod = self.ctr.mod(C.Ctx(self.entry_args, self.entry_heap, self.entry_heap, env=self.entry_args))
     r = z3.Int('fr_r')
     for a in CONTAINER_ARRAYS:
@@ -744,6 +791,33 @@ class Exec(ExprMixin, CallMixin):
               z3.And(r < self.entry_heap.alloc, *[r != m for m in mod]),
               after[r] == before[r]))))
     return goals
+
+  def check_cm_exit(self, o):
+    """Exit of a context-manager generator after its with-body ran."""
+    ctr = self.ctr
+    st = o.st
+    body_heap = st.meta['body_heap']
+    ctx = C.Ctx(self.entry_args, self.entry_heap, st.heap, env=st.env, body=body_heap)
+    E = st.meta.get('body_exc')
+    if st.meta['body'] == 'normal':
+      if o.kind == 'raise':
+        self.oblige('cm/exit-raises', 'raises', st, z3.BoolVal(False),
+                    f'the body finished normally but the context manager raises {o.val}')
+      else:
+        if ctr.exit_post is not None:
+          self.oblige('cm/exit-post', 'post', st, ctr.exit_post(ctx), 'state after a normal body')
+    else:
+      if o.kind == 'return':
+        allowed = ctr.swallows(ctx, E) if ctr.swallows is not None else z3.BoolVal(False)
+        self.oblige('cm/no-swallow', 'raises', st, allowed,
+                    'an exception raised by the body is not swallowed')
+      else:
+        F = o.val
+        if ctr.exc_rel is not None:
+          self.oblige('cm/exc-rel', 'raises', st, ctr.exc_rel(ctx, E, F),
+                      'the escaping exception is the body\'s exception (or its decorated form)')
+      if ctr.exit_post is not None:
+        self.oblige('cm/exit-post-exc', 'post', st, ctr.exit_post(ctx), 'state after a raising body')
 
   def check_normal_exit(self, o):
     ctr = self.ctr
